@@ -30,6 +30,28 @@ var families = map[string]func(r *rand.Rand, i int) *Program{
 	"bigbatch":  genBigBatch,
 	"reap":      genReap,
 	"eqprio":    genEqPrio,
+	"shrink":    genShrink,
+}
+
+// shrink: a pool kept full by a high minimum-idle ratio is tuned down while new jobs are dispatched
+// and finish: TunePool's shrink loop against the dispatcher and freePoolNode.
+func genShrink(r *rand.Rand, i int) *Program {
+	g := &gen{r: r}
+	p := &Program{Kind: kinds(r), Conc: 2 + r.Intn(3), Queues: []string{qkind(r)}, WFYields: r.Intn(3), MinIdle: []int{100, 100, 60}[r.Intn(3)]}
+	a := g.adds(p.Conc)
+	a = append(a, Op{Op: "wuf"}, Op{Op: "tune", N: 1 + r.Intn(p.Conc-1)}, Op{Op: "counts"})
+	b := []Op{{Op: "yield"}}
+	for j := 0; j < 1+r.Intn(3); j++ {
+		b = append(b, Op{Op: "yield"}, g.add())
+	}
+	b = append(b, Op{Op: "wuf"}, Op{Op: "counts"})
+	p.Threads = [][]Op{a, b}
+	if r.Intn(2) == 0 {
+		// directed: the tuning goroutine is parked right after its first look at the idle list until
+		// everybody else has come to rest
+		p.Hold = "worker.TunePool worker#1.concurrency store|List#1 ret:"
+	}
+	return p
 }
 
 // eqprio: limit 1, one queue, producers submitting jobs of few distinct priorities while the worker
@@ -446,6 +468,14 @@ func genCancel(r *rand.Rand, i int) *Program {
 	}
 	a = append(a, Op{Op: "wuf"})
 	p.Threads = [][]Op{a, b}
+	if r.Intn(2) == 0 {
+		// a reader blocked in Result()/Err() on a job somebody tries to cancel
+		var c []Op
+		for j := 0; j < 1+r.Intn(2); j++ {
+			c = append(c, Op{Op: "jresult", K: prod[r.Intn(len(prod))].K})
+		}
+		p.Threads = append(p.Threads, c)
+	}
 	if r.Intn(3) == 0 {
 		p.Paused = true
 		p.Threads = append(p.Threads, []Op{{Op: "yield"}, {Op: "resume"}})
